@@ -142,7 +142,9 @@ func (w *c11World) handler(srv int, lg *rng.R) func(ctx context.Context, resp []
 			negs := []int{-1, -1, -2, -255, -256, -257, -512, -65535, -65536, math.MinInt32, math.MinInt}
 			return finish(nil, negs[int(e.Seq)%len(negs)])
 		case bhSlow:
-			time.Sleep(time.Duration(200+lg.Intn(1500)) * time.Microsecond)
+			if e.Seq%2 == 0 {
+				time.Sleep(time.Duration(200+lg.Intn(1500)) * time.Microsecond)
+			}
 		}
 		want := w.derive(e.Seq, inv, respLenFor(e.Seq, mtu))
 		if e.Tag == bhBig {
@@ -153,6 +155,13 @@ func (w *c11World) handler(srv int, lg *rng.R) func(ctx context.Context, resp []
 			return finish(nil, -1)
 		}
 		n := copy(resp, want)
+		if e.Tag == bhSlow && e.Seq%2 == 1 {
+			// the handler has written its answer and keeps working for a while: the response buffer is its own until it returns
+			time.Sleep(time.Duration(200+lg.Intn(1500)) * time.Microsecond)
+			if !bytes.Equal(resp[:n], want) {
+				w.viol("handler-buffer-written-by-others", "the response buffer handed to an ask handler was overwritten while the handler was still running (it is shared with another invocation)", map[string]any{"server": srv, "request_seq": e.Seq, "response_len": n})
+			}
+		}
 		return finish(want, n)
 	}
 }
@@ -168,6 +177,7 @@ type c11Cfg struct {
 	perAsker   int
 	serveLoops int
 	closeDst   bool // close server 1 at a random point
+	allServe   bool // every node serves (no destination where asks go unanswered)
 }
 
 func c11Run(r *ev.Run, st *Stack, g *rng.R, caseID string, cfg c11Cfg, prop string, judgePrompt bool) {
@@ -176,8 +186,12 @@ func c11Run(r *ev.Run, st *Stack, g *rng.R, caseID string, cfg c11Cfg, prop stri
 	mtu := st.Nodes[0].MTU()
 	sctx, scancel := context.WithCancel(context.Background())
 	var swg sync.WaitGroup
-	// nodes 0 and 1 serve, the last node never serves
-	for srv := 0; srv < n-1; srv++ {
+	// nodes 0 and 1 serve, the last node never serves (unless allServe)
+	unserved, nServe := n-1, n-1
+	if cfg.allServe {
+		unserved, nServe = -1, n
+	}
+	for srv := 0; srv < nServe; srv++ {
 		for l := 0; l < cfg.serveLoops; l++ {
 			srv := srv
 			lg := g.Fork()
@@ -258,7 +272,7 @@ func c11Run(r *ev.Run, st *Stack, g *rng.R, caseID string, cfg c11Cfg, prop stri
 				var ctx context.Context
 				var cf context.CancelFunc
 				plan := lg.Intn(10)
-				if dst == n-1 && plan > 2 {
+				if dst == unserved && plan > 2 {
 					plan = lg.Intn(3) // nobody serves there: only contexts that end soon
 				}
 				switch {
@@ -340,7 +354,7 @@ func c11Run(r *ev.Run, st *Stack, g *rng.R, caseID string, cfg c11Cfg, prop stri
 					if closedAt.Load() != 0 && dst == 1 {
 						sig = "success-from-closed-destination"
 					}
-					if dst == n-1 {
+					if dst == unserved {
 						sig = "success-from-unserved-destination"
 					}
 					w.viol(sig, fmt.Sprintf("Ask returned (%d, nil) although no handler ran for this request", nn), det(nil))
@@ -482,7 +496,11 @@ func runC11(r *ev.Run) {
 			continue
 		}
 		reps := pick(r, 2, 6)
-		for rep := 0; rep < reps; rep++ {
+		extra := 0
+		if sf.Name == "ssh" {
+			extra = pick(r, 1, 3)
+		}
+		for rep := 0; rep < reps+extra; rep++ {
 			idx++
 			cg := g.Fork()
 			if !r.Mine(idx) {
@@ -502,6 +520,11 @@ func runC11(r *ev.Run) {
 			cfg := c11Cfg{askers: cg.Range(2, 16), perAsker: pick(r, 25, 60), serveLoops: cg.Range(1, 4), closeDst: rep%2 == 1}
 			if sf.Heavy {
 				cfg.perAsker = pick(r, 10, 30)
+			}
+			if sf.Name == "ssh" && rep >= reps {
+				// On sshswarm an ask to a node where nobody serves never returns (open finding) and takes its asker goroutine
+				// with it, so the ordinary runs see little concurrency there. In these extra runs every node serves.
+				cfg.allServe, cfg.closeDst, cfg.serveLoops, cfg.askers, cfg.perAsker = true, false, 3, 12, pick(r, 30, 60)
 			}
 			c11Run(r, st, cg, caseID, cfg, "C11", true)
 			if rep == 0 {
